@@ -349,6 +349,11 @@ func histOracle(h *histRun, r *vsched.Result) []vsched.Violation {
 	}
 	// restarts
 	wantInc := 1 + ref.crashes
+	if crashBehindPoison(hp.Hist) {
+		// a panic while draining behind a graceful pill: the property demands containment and that
+		// the stop completes, not whether the actor is restarted once more before it stops
+		return append(vs, histTail(h, ref, ended, count)...)
+	}
 	if k.Incs("A") != wantInc {
 		vs = append(vs, V("restart/wrong-number-of-incarnations", "history %s maxRestarts %d: %d incarnations, want %d; log: %s", hp.Hist, hp.MaxRestarts, k.Incs("A"), wantInc, k.LogString()))
 	}
@@ -380,6 +385,19 @@ func histOracle(h *histRun, r *vsched.Result) []vsched.Violation {
 			}
 		}
 	}
+	return append(vs, histTail(h, ref, ended, count)...)
+}
+
+// crashBehindPoison: a message that panics is queued behind a graceful pill.
+func crashBehindPoison(hist string) bool {
+	p := strings.IndexByte(hist, 'P')
+	return p >= 0 && strings.IndexAny(hist[p:], "xX") >= 0
+}
+
+// histTail: stop contexts, late probe, bystander, middleware clauses of the history oracle.
+func histTail(h *histRun, ref histRef, ended bool, count map[int]int) []vsched.Violation {
+	var vs []vsched.Violation
+	k, hp := h.k, h.hp
 	// stop contexts
 	for i, ctx := range h.ctxs {
 		if ctx.Err() == nil {
@@ -551,10 +569,18 @@ func init() {
 		Register(&Job{Name: fmt.Sprintf("C07/hist/two-stops-mode%d", mode), Prop: "C07", Family: "trigger:D3", Bound: 1, BoundT: 2, Budget: 40, BudgetT: 600,
 			Desc: fmt.Sprintf("%d histories over {m,P,S} of length<=3 with two stop requests", len(two)),
 			Make: func() vsched.Instance { return histInstance(two, histOracle) }})
-		crash := mk(allHists("mxPS", 3, func(h string) bool { return countAny(h, "PS") == 1 && countAny(h, "x") == 1 }), histParams{MaxRestarts: 3, Mode: mode, Late: true})
-		Register(&Job{Name: fmt.Sprintf("C07/hist/crash-and-stop-mode%d", mode), Prop: "C07", Family: "trigger:D2D4", Bound: 1, BoundT: 2, Budget: 40, BudgetT: 600,
-			Desc: fmt.Sprintf("%d histories over {m,x,P,S} of length<=3 with one crash and one stop request", len(crash)),
-			Make: func() vsched.Instance { return histInstance(crash, histOracle) }})
+		// a crash and a stop request in one history. Clean: the crash comes before the stop request
+		// (the pill is replayed from the restart buffer) or sits behind a non-graceful Stop (dropped).
+		isD4 := crashBehindPoison // a panicking message queued behind a graceful pill
+		oneEach := func(h string) bool { return countAny(h, "PS") == 1 && countAny(h, "x") == 1 }
+		crashClean := mk(allHists("mxPS", 4, func(h string) bool { return oneEach(h) && !isD4(h) }), histParams{MaxRestarts: 3, Mode: mode, Late: true})
+		Register(&Job{Name: fmt.Sprintf("C07/hist/crash-then-stop-mode%d", mode), Prop: "C07", Bound: 1, BoundT: 2, Budget: 40, BudgetT: 600,
+			Desc: fmt.Sprintf("%d histories over {m,x,P,S} of length<=4 with one crash and one stop request, the crash in front of the request or behind a non-graceful Stop", len(crashClean)),
+			Make: func() vsched.Instance { return histInstance(crashClean, histOracle) }})
+		crashD4 := mk(allHists("mxP", 3, func(h string) bool { return oneEach(h) && isD4(h) }), histParams{MaxRestarts: 3, Mode: mode, Late: true})
+		Register(&Job{Name: fmt.Sprintf("C07/hist/crash-behind-poison-mode%d", mode), Prop: "C07", Family: "trigger:D4", Bound: 1, BoundT: 2, Budget: 40, BudgetT: 600,
+			Desc: fmt.Sprintf("%d histories over {m,x,P} of length<=3 in which a message that panics is queued behind a graceful poison pill (crash while draining)", len(crashD4)),
+			Make: func() vsched.Instance { return histInstance(crashD4, histOracle) }})
 	}
 	// C13: middleware chains of length 1..3 on every lifecycle path.
 	for n := 1; n <= 3; n++ {
